@@ -567,6 +567,61 @@ def campaign(run):
     s['cached'] = False
     return s
 
+# ------------------------------------------------------------------ tie of Model/DomFacts.v
+# The theorems *_model_facts of Properties/C13.v / C15.v are about the string facts computed by the MODEL of the parser
+# (coq/theories/Model/DomFacts.v facts_of_name / facts_of_data).  The harness computes the same facts with the real parser
+# (`digest` of harness/src/domains/dom.rs, printed as O words in record 0 of every dom case).  facts_tie compares the two on
+# hand-picked strings, on the strings of the generators and on random strings over an alphabet of delimiters, name
+# characters, references and non-characters.
+FACT_STRINGS = ["", "a", "p:a", ":a", "a:", "a:b:c", "xmlns", "xmlns:a", "xmlns:", "xmlnsx", "xmlns:a:b", "xml", "XML", "xMl", "xmlx",
+    "1", "-a", ".", "a b", "a;b", "#65", "#x41", "#x41;z", "#x41;zz", "#;", "#", "amp;x", "amp", "e ", "a\tb", " ", "  d?", "\t\n x ", "a?>b", "?>",
+    "?", "??>", "a?", "a&lt;b", "&#65;", "&#x110000;", "&#xD800;", "&#0;", "&#99999999999;", "&#x0041;", "&#X41;", "&;", "&1;", "&a", "&",
+    "& b", "a&b;c&d;", "&amp;&amp;", 'a"b', "a'b", 'a"b\'c', "'", '"', "<", "a<b", "]]>", "a]]>b", "--", "a--b", "a-", "-", "é",
+    "·a", "a·", "\x01", "a\x01", "￾", "a￾b", "a=b", "a>", "x y='1'", "a/", "\U00010000", "\U0001F600x", "&#x1F600;",
+    "&lt", "&lt;;", "&#65", "&#6 5;", "&#x;", "t", "<!--", "<![CDATA[", "]]", "a\rb", "&#xa;", "&e;&f;", "K", "İ", "xmK"]
+FACT_ALPHA = ['a', 'x', 'm', 'l', 'X', 'n', 's', ':', '&', '#', ';', '1', '6', '5', '<', '>', '?', '"', "'", ' ', '-', ']', '·', '\x01',
+              'é', '=', '\t', 'p', 't', 'g']
+FACT_WORDS = ['xmlns', 'xml', '&amp;', '&#65;', '&#x41;', 'lt', 'amp', '?>', ']]>', '--']
+
+def facts_tie(run, count=None):
+    """-> {'strings': n, 'mismatches': [(string, harness digest, model digest)]}; appends to run.tie_breaks"""
+    rng = random.Random('facts-tie-%d' % run.seed)
+    count = count if count is not None else (600 if run.tier == 'quick' else 6000)
+    strings = list(FACT_STRINGS) + list(FRAG) + list(NAMES15)
+    for _ in range(count):
+        n = rng.choice([0, 1, 2, 3, 3, 4, 4, 5, 6, 7, 8, 10])
+        strings.append(''.join(rng.choice(FACT_ALPHA) for _ in range(n)))
+    for w in FACT_WORDS:
+        for _ in range(max(4, count // 100)):
+            a = ''.join(rng.choice(FACT_ALPHA) for _ in range(rng.choice([0, 1, 2])))
+            b = ''.join(rng.choice(FACT_ALPHA) for _ in range(rng.choice([0, 1, 2])))
+            strings.append(a + w + b)
+    strings = sorted(set(x for x in strings if isinstance(x, str)))
+    # harness: one case per chunk; PD on the document element is not applicable, so the state does not grow;
+    # the digests of the string arguments are in record 0
+    chunk = 100
+    cases = [D.mkcase(['<r/>'], [('PD', 1, x) for x in strings[k:k + chunk]], 'r') for k in range(0, len(strings), chunk)]
+    lines = D.run_impl(cases)
+    impl = {}
+    for ci, line in enumerate(lines):
+        head = line.split(' | ')[0].partition(' # ')[0]
+        for w in head.split(' '):
+            if w.startswith('O') and ':' in w:
+                i, _, d = w[1:].partition(':')
+                if i.isdigit() and ci * chunk + int(i) < len(strings):
+                    impl[strings[ci * chunk + int(i)]] = d
+    rc, out = lib.run_bin(lib.model_bin('domfacts'), ['domfacts'], [lib.enc(x) for x in strings], timeout=600, shards=min(lib.NPROC, 8))
+    res = {'strings': len(strings), 'mismatches': []}
+    if len(out) != len(strings) or len(impl) != len(strings):
+        run.tie_breaks.append('facts tie: %d strings, %d harness digests, %d model digests' % (len(strings), len(impl), len(out)))
+        return res
+    for x, m in zip(strings, out):
+        if impl[x] != m:
+            res['mismatches'].append((x, impl[x], m))
+    for x, a, b in res['mismatches'][:3]:
+        run.tie_breaks.append('facts tie: Model/DomFacts.v and the harness digest differ on %r (code points %s): harness %s, model %s' % (x, lib.enc(x), a, b))
+    return res
+
 # ------------------------------------------------------------------ shrinking, replay
 def step_violations(docs, ops, prop):
     """run a history on the implementation; -> list per op index of [(clause, detail, f)]"""
